@@ -295,6 +295,7 @@ class Snap:
         self.source_name = _name(fr.source_name)
         self.tolf = FS_ULPS * float(np.spacing(max(abs(self.fs[0]), abs(self.fs[-1]))))
         self.o = 'asc' if self.asc else 'desc'
+        self.meta = {k: repr(v_) for k, v_ in fr.metadata.items()} if isinstance(getattr(fr, 'metadata', None), dict) else None
 
 
 def _name(s):
@@ -336,6 +337,9 @@ def check_kept(R, P, child, op, parent_fr, df=True, dt=True):
     if dt:
         R.check(abs(float(child.dt) - P.dt) <= 2 * common.ulp(P.dt), f'dt-changed:{op}', got=float(child.dt), parent=P.dt)
     R.check(not np.shares_memory(child.data, parent_fr.data), f'view-of-parent-data:{op}')
+    if op != 'dedrift' and P.meta is not None and isinstance(getattr(parent_fr, 'metadata', None), dict):
+        now = {k: repr(v_) for k, v_ in parent_fr.metadata.items()}
+        R.check(now == P.meta, f'operation-changed-parent-metadata:{op}', keys=sorted(k for k in set(now) | set(P.meta) if now.get(k) != P.meta.get(k))[:5])
     # annotating the derived frame (a note, another trial drift rate, ...) is the caller's business with THAT frame
     if isinstance(getattr(child, 'metadata', None), dict) and isinstance(getattr(parent_fr, 'metadata', None), dict):
         before = {k: repr(v) for k, v in parent_fr.metadata.items()}
@@ -447,9 +451,17 @@ def run_dedrift_once(stg, R, fr, d, meta, via='explicit', tag=''):
                     pass
         except Exception:
             raise
+    meta_before = {k: repr(v_) for k, v_ in fr.metadata.items()} if isinstance(getattr(fr, 'metadata', None), dict) else None
     try:
-        with common.quiet():
-            child = stg.dedrift(fr, *args)
+        try:
+            with common.quiet():
+                child = stg.dedrift(fr, *args)
+        finally:
+            # de-drifting reads the parent: its bookkeeping (the recorded drift rate above all) is as it was, accepted or rejected
+            if meta_before is not None:
+                meta_after = {k: repr(v_) for k, v_ in fr.metadata.items()}
+                R.check(meta_after == meta_before, 'dedrift:changed-parent-metadata:' + via, keys=sorted(
+                    k for k in set(meta_after) | set(meta_before) if meta_after.get(k) != meta_before.get(k))[:5], d=d)
     except ValueError as e:
         raised = e
     except Exception as e:
